@@ -6,14 +6,14 @@ TECH = 'contract-based deductive verification: sidecar contracts on the real fun
 COMMON_NOTE = ('trusted: the pyvc VC generator (cross-checked against CPython on sampled inputs every run; must-fail mutants in selftest), z3/cvc5 unsat answers, '
                'the pow2/bit_length axiom schemas (each proved in lean/FpyLemmas.lean against Mathlib), CPython semantics of the verified subset; ')
 CHECKS = {
- 'C01': ('every function the property depends on in the number core (RoundingMode.to_direction, RealFloat.split/_round_params/_round_increment*/_round_at/round/compare) and the context layer carries a contract taken from the definition of correct rounding (floor/remainder form of the eight modes); VCs are generated for every path from the current source and discharged unbounded in operands, precisions and exponents',
-         'RealFloat._tiny_post (tininess after rounding) is a bounded stand-in (exponents/widths <= 20) and is reported separately; context families not listed in the evidence are not covered', 'DESIGN.md §5 C01'),
- 'C15': ('each SyntaxCheckInstance._visit_<stmt>, _Env.merge/extend, _mark_use and the Reachability visitors are proved (unbounded, symbolic maps/sets with loop invariants) to implement the definite-assignment / can-complete rules of the language guide',
-         'soundness of the rule set w.r.t. execution is assumed; _visit_expr is a trusted abstract contract; TupleBinding recursion and _visit_function are not covered', 'DESIGN.md §5 C15'),
- 'C17': ('RealFloat.round is proved (unbounded) against the stochastic specification (result is one of the two neighbours, chosen by draw + L >= 2^k with L the mode-rounded distance; representable => unchanged; one draw per rounding) modulo the contract of _round_at_stochastic',
-         'the contract of RealFloat._round_at_stochastic itself is only a BOUNDED stand-in in the quick tier (exhaustive native enumeration, bound stated in the evidence; the thorough tier additionally attempts the symbolic proof with a bounded fallback); RNGs are a trusted contract (k uniformly distributed bits, one draw per call)', 'DESIGN.md §5 C17'),
- 'C19': ('index arithmetic of cursors and edit logs: _forward_stmt (loop invariant over logs of symbolic length), _forward_block (recursion with termination measure), EditLog.forward, Edit/_overlaps, check_site/_selects_at proved unbounded',
-         'W2 (order preservation under disjoint edits) and _record_at are bounded stand-ins (logs of <= 3 / 2 edits); AST resolution facts are uninterpreted (trusted resolve contracts); visitor bookkeeping and expression cursors are not covered', 'DESIGN.md §5 C19'),
+ 'C01': ('every function the property depends on in the number core (RoundingMode.to_direction, RealFloat.split/_round_params/_round_increment*/_round_at/round/compare) and the context layer (MPFloat, MPSFloat, MPBFloat, MPFixed, MPBFixed, Exp, Real, EFloat incl. its special-value table, round_params/round_integer, constructors establishing the class invariants, the Fixed/SMFixed/IEEE thin layers) carries a contract taken from the definition of correct rounding (floor/remainder form of the eight modes); VCs are generated for every path from the current source and discharged unbounded in operands, precisions and exponents',
+         'RealFloat._tiny_post (tininess after rounding) and efloat._ext_to_mpb_fmt are bounded stand-ins and reported separately; constructors WITH nan_value/inf_value substitutes are thorough-tier contracts; Context._round_prepare coercions and the inherited round/round_at of Fixed/SMFixed/IEEE are not covered; known findings F16, C01-W3-1..6 (constructor validation gaps) are reported as KNOWN-FINDING', 'DESIGN.md §B.3, §5 C01'),
+ 'C15': ('every SyntaxCheckInstance statement and expression visitor (incl. list-comprehension scoping, tuple bindings, _visit_function, dispatch verified per expression class), _Env.merge/extend, _mark_use and the Reachability visitors are proved (unbounded, symbolic maps/sets/sequences with loop invariants) to implement the definite-assignment / can-complete rules of the language guide, with frame clauses: no visitor mutates the ctx object of its caller',
+         'soundness of the rule set w.r.t. execution is assumed; the decorator flow (both checks run on every path) is checked syntactically by tools/c15x_decorator_flow.py, not by the verifier; known finding C15X-1', 'DESIGN.md §B.3, §5 C15'),
+ 'C17': ('RealFloat.round is proved (unbounded) against the stochastic specification (result is one of the two neighbours, chosen by draw + L >= 2^k with L the mode-rounded distance; representable => unchanged; one draw per rounding) modulo the contract of _round_at_stochastic; round_params of every context family widens the pre-rounding precision by the random bits',
+         'the contract of RealFloat._round_at_stochastic itself is only a BOUNDED stand-in in the quick tier (exhaustive native enumeration, bound stated in the evidence; the thorough tier additionally attempts the symbolic proof with a bounded fallback); RNGs are a trusted contract (k uniformly distributed bits, one draw per call)', 'DESIGN.md §B.3, §5 C17'),
+ 'C19': ('index arithmetic of cursors and edit logs (_forward_stmt with a loop invariant over logs of symbolic length, _forward_block recursion with a termination measure, EditLog.forward, Edit/_overlaps, check_site/_selects_at) and the agreement of LISTING order and VISITING order: sub_exprs/sub_blocks per node class and both default visitors are proved against one reference table, visitor dispatch reaches the method of the same row; proved unbounded',
+         'W2 (order preservation under disjoint edits), _record_at, visitors over sequence-valued fields (2 elements) and walk_stmts/walk_exprs (one program shape) are bounded stand-ins; AST resolution facts are uninterpreted (trusted resolve contracts); expression cursors (ExprPath) and SiteRewriter._visit_block are not covered', 'DESIGN.md §B.3, §5 C19'),
 }
 NA = [
  ('C08', 'program-to-program transform correctness needs FPy operational semantics inside the verifier; not expressible as function-level contracts (DESIGN §6)'),
